@@ -13,7 +13,10 @@ families (all solver-driven through the symx engine):
   sheet_names     _unique_sheet_name / _sanitize_sheet_name: names = concrete prefix (0..31 chars, around the 31-char
                   cut) + symbolic characters from an alphabet of forbidden / special / ordinary characters
                   (finite-domain symbolic); unique, 1..31 chars, none of : \\ / ? * [ ].
-Workbook channel: not applicable (openpyxl/pyxlsb parsing of binary files cannot be encoded; no template writer in reach).
+Workbook channel: on the concrete replay of path models the problem is also written as a workbook with the template sheets
+                  ('Stream Data', 'Utility Data'; numbers as float cells and, for whole numbers, as integer cells; units spelled
+                  degC and with the degree sign) and loaded through PinchProblem -- a path-directed witness like JSON/CSV (the
+                  openpyxl parser itself is compiled/binary-format code and cannot be encoded).
 """
 from __future__ import annotations
 
@@ -30,7 +33,7 @@ from harness import pipeline, service
 PROPERTY = "C16"
 LEVEL = "model_checking"
 FILES = ["OpenPinch/classes/pinch_problem.py", "OpenPinch/utils/csv_to_json.py", "OpenPinch/utils/export.py", "OpenPinch/utils/miscellaneous.py",
-         "OpenPinch/lib/schema.py", "OpenPinch/main.py"]
+         "OpenPinch/lib/schema.py", "OpenPinch/main.py", "OpenPinch/utils/wkbook_to_json.py"]
 
 
 # ------------------------------------------------------------------------------------------------ channels
@@ -80,6 +83,20 @@ def _write_csv(path, rows, cols, units, spell=0):
             fh.write(",".join(_cell(r[c], spell) for c in cols) + "\n")
 
 
+def _write_workbook(path, spec, deg, htc_unit, ints):
+    import pandas as pd
+
+    def cell(v):
+        return int(v) if ints and isinstance(v, float) and v == int(v) else v
+    scol = ["zone", "name", "t_supply", "t_target", "heat_flow", "dt_cont", "htc"]
+    sun = [None, None, deg, deg, "kW", deg, htc_unit]
+    ucol = ["name", "type", "t_supply", "t_target", "dt_cont", "price", "htc", "heat_flow"]
+    uun = [None, None, deg, deg, deg, "$/MWh", htc_unit, "kW"]
+    with pd.ExcelWriter(path, engine="openpyxl") as xw:
+        pd.DataFrame([scol, sun] + [[cell(r[c]) for c in scol] for r in spec["streams"]]).to_excel(xw, sheet_name="Stream Data", header=None, index=False)
+        pd.DataFrame([ucol, uun] + [[cell(r[c]) for c in ucol] for r in spec["utilities"]]).to_excel(xw, sheet_name="Utility Data", header=None, index=False)
+
+
 def body_channels(ctx, case):
     plain_spec = _spec(ctx, case, wrap=False)
     r_dict = service.call_service(ctx, service.make_input(ctx, plain_spec, "dict"), project_name="P")
@@ -125,6 +142,15 @@ def body_channels(ctx, case):
                     pt.load((os.path.join(cd, "streams.csv"), os.path.join(cd, "utilities.csv")))
                     pt._project_name = "P"
                     ctx.require(service.same(_records(pt.target()), base, 1e-6), f"CSV file pair through PinchProblem gives the same targets ({SPELLINGS[spell]})")
+            # workbook with the template sheets, read by get_problem_from_excel through the wrapper
+            for spell, (deg, what) in enumerate((("degC", "float cells, units degC / kW/m^2/K"), ("\u00b0C", "integer cells for whole numbers, units with the degree sign / kW/m2/K"))):
+                xp = os.path.join(td, f"W{spell}", "P.xlsx")
+                os.makedirs(os.path.dirname(xp))
+                _write_workbook(xp, plain_spec, deg, "kW/m^2/K" if spell == 0 else "kW/m2/K", ints=bool(spell))
+                px = PinchProblem()
+                px.load(xp)
+                ctx.require(service.same(_records(px.target()), base, 1e-6), f"workbook through PinchProblem gives the same targets ({what})")
+            ctx.tag("workbook channel compared")
     di = [r for r in base if r["name"] == "P/Direct Integration"]
     if di:
         ctx.note("Qh", di[0]["Qh"]); ctx.note("Qc", di[0]["Qc"])
@@ -251,11 +277,11 @@ def cases_sheets(tier, seed):
 FAMILIES = [
     Family(name="channels", cases=lambda tier, seed: ([{"utils": False}, {"utils": False, "offset": -160.0}] if tier == "quick"
                                                     else [{"utils": False}, {"utils": True}, {"utils": False, "zone2": "Z2"}, {"utils": False, "offset": -160.0}, {"utils": False, "zone2": "Z2", "offset": -230.0}]),
-           body=body_channels, functions=["pinch_analysis_service", "get_value", "PinchProblem.load", "PinchProblem.target", "get_problem_from_csv (concrete replay)"],
+           body=body_channels, functions=["pinch_analysis_service", "get_value", "PinchProblem.load", "PinchProblem.target", "get_problem_from_csv (concrete replay)", "get_problem_from_excel (concrete replay)"],
            files=FILES, bounds="one problem of two streams (optionally one utility / two zones) with one supply temperature a z3 real in [101,500], given as dictionary, as validated model "
                                "and with value-with-unit numbers on the same path, also moved to sub-zero whole-number temperatures; JSON file, CSV directory, CSV pair (every cell spelling of: "
-                               "float repr / whole numbers without decimal point / exponent form) and the PinchProblem wrapper on the concrete replay of path models",
-           assumptions=["pydantic stand-ins and identity curve cleaning during symbolic runs", "file channels (JSON/CSV) are exercised on concrete path models only; workbook channel not applicable",
+                               "float repr / whole numbers without decimal point / exponent form), a workbook with the template sheets (float or integer cells, two unit spellings) and the PinchProblem wrapper on the concrete replay of path models",
+           assumptions=["pydantic stand-ins and identity curve cleaning during symbolic runs", "file channels (JSON/CSV/workbook) are exercised on concrete path models only (their parsers are compiled code): path-directed witnesses, not a for-all",
                         "breakpoints equal or >= 0.25 K apart"],
            shim_modules=None, snap="micro", split_paths=6, validate_every=2, reach=["forms compared"]),
     Family(name="get_value", cases=lambda tier, seed: [{}], body=body_get_value, functions=["get_value"], files=FILES[3:5],
